@@ -150,7 +150,7 @@ CHECKS = {
              'carries the marker of its own envelope, every attempt returns, one message at a time per connection, RSET after a '
              'failed transaction.',
         design='5/C19', technique='TLA+ pool model (TLC exhaustive, deviation switch) + TLC trace validation of real pool executions',
-        note='In-memory scripted downstream; HTTP pool clients not driven yet. ' + TB),
+        note='In-memory scripted SMTP/LMTP downstream; loopback HTTP peer for the HttpRelay pool (real sockets: virtual time moves only while a request is stuck on a peer that stalls on purpose). ' + TB),
     'C02': dict(
         level='model_checking',
         text='EdgeHandoff.tla models one client transaction (N envelopes after the policies, every write ending ok or failed, '
